@@ -694,9 +694,10 @@ static int cabd_find(struct mscab_decompressor_p *self, unsigned char *buf,
         break;
 
       /* verify that the next 3 bytes are 'S', 'C' and 'F' */
-      case 1: state = (*p++ == 0x53) ? 2 : 0; break;
-      case 2: state = (*p++ == 0x43) ? 3 : 0; break;
-      case 3: state = (*p++ == 0x46) ? 4 : 0; break;
+      /* a mismatching 'M' may itself start a signature: go back to state 1 */
+      case 1: state = (*p == 0x53) ? 2 : (*p == 0x4D) ? 1 : 0; p++; break;
+      case 2: state = (*p == 0x43) ? 3 : (*p == 0x4D) ? 1 : 0; p++; break;
+      case 3: state = (*p == 0x46) ? 4 : (*p == 0x4D) ? 1 : 0; p++; break;
 
       /* we don't care about bytes 4-7 (see default: for action) */
 
